@@ -128,6 +128,10 @@ def run(ctx):
             a.update({"C": "N", "I": "N", "A": "N"})
         pfx = rng.choice(core.PREFIX[ver])
         cases.append((ver, a, pfx, core.render(ver, a, rng, prefix=pfx)))
+    for ver in "234":
+        for s in core.singletons(ver, rng, ctx.n(12, 200)):
+            pfx, fields = obs.parse_fields(ver, s)
+            cases.append((ver, dict(fields), pfx, s))
     ctx.count(len(cases) * 4)
     ctx.sample({"vector": cases[0][3]})
     for ver in "234":
